@@ -76,6 +76,100 @@ def parse_cl(s):
     return t[1:i], t[i + 1]
 
 
+def conn_view(toks):
+    """per request: (hop, connection it was sent on); per connection: hop ids its peer emitted, was it cut"""
+    reqs, emitted, cut = [], {0: []}, {0: False}
+    cur = sel = 0
+    for x in toks:
+        if x == "CA":
+            cur += 1
+            sel = cur
+            emitted[cur] = []
+            cut[cur] = False
+        elif x.startswith("SEL "):
+            c = int(x.split()[1])
+            if c <= cur:
+                sel = c
+        elif x.startswith("R "):
+            reqs.append((int(x.split()[1], 16), cur))
+        elif x.startswith(("P ", "PS ", "PG ")):
+            emitted[sel].append(int(x.split()[1], 16))
+        elif x.startswith("B "):
+            cut[sel] = True
+    return reqs, emitted, cut
+
+
+def readers_of(im):
+    """reader state per connection"""
+    t = im.split()
+    if "ALL" in t:
+        return t[t.index("ALL") + 1:]
+    return [t[t.index("READER") + 1]] if "READER" in t else []
+
+
+def multi_schedule(r, adversarial=False):
+    """one client object, 2-3 connections over its life: requests on each, answers on each connection for the requests sent
+    on it (any order, interleaved across connections), failed connect() calls anywhere, older connections cut by their peer
+    while newer ones have requests outstanding"""
+    toks = []
+    nconn = r.choice([2, 2, 3])
+    hop = 0x30
+    pending = {}          # connection -> hop ids sent on it and not yet answered
+    alive = {}
+    for c in range(nconn):
+        if c > 0:
+            toks.append("CA")
+        pending[c] = []
+        alive[c] = True
+        for _ in range(r.range(0 if c == 0 and adversarial else 1, 2)):
+            toks += [f"R {hx(hop)}", "W"]
+            pending[c].append(hop)
+            hop += 1
+            if r.chance(1, 4):
+                toks.append("CF")
+        # peer activity on any connection opened so far
+        for _ in range(r.range(0, 3)):
+            k = r.below(c + 1)
+            act = r.below(10)
+            if act < 6 and pending[k] and alive[k]:
+                h = pending[k].pop(r.below(len(pending[k])))
+                toks += [f"SEL {k}", f"P {hx(h)}" if r.chance(2, 3) else f"PG {hx(h)} {hx(r.range(1, ANSWER_LEN - 1))} {hx(r.choice([1, 1000, 61000]))}"]
+            elif act < 8 and alive[k] and (k < c or adversarial):
+                toks += [f"SEL {k}", "B " + r.choice(["eof", "reset", "garbage"])]
+                alive[k] = False
+            elif act == 8:
+                toks.append("CF")
+            elif adversarial:
+                toks += [f"SEL {k}", f"P {hx(r.choice([0x30, 0x31, 0x32, 0x99]))}"]
+    # drain: every connection still alive answers what it owes, in random order across connections
+    owed = [(k, h) for k in pending for h in pending[k] if alive[k]]
+    for k, h in r.shuffle(owed):
+        toks += [f"SEL {k}", f"P {hx(h)}"]
+    if adversarial and r.chance(1, 2):
+        toks += [f"R {hx(hop)}", "W"]
+    return toks
+
+
+ARITY = {"R": 1, "G": 1, "W": 0, "WE": 0, "D": 1, "T": 1, "CA": 0, "CF": 0, "SEL": 1, "P": 1, "PS": 2, "PG": 3, "PT": 2, "B": 1}
+
+
+def regress_schedules(pid):
+    """minimised schedules of every client defect found so far (corpus/regress.json): run first"""
+    from checks_codec import regress_cases
+    out = []
+    for c in regress_cases(pid):
+        t = c.split()
+        if t[0] != "CL":
+            continue
+        toks, i = [], 3
+        while i < len(t):
+            k = ARITY.get(t[i], 0)
+            toks.append(" ".join(t[i:i + 1 + k]))
+            i += 1 + k
+        out.append((line(toks), toks, "multi"))
+    return out
+
+
 def judge_safety(chk, pid, case, toks, im):
     """C11 safety on any schedule: returns (ok, parsed)"""
     p = parse_cl(im)
@@ -83,8 +177,22 @@ def judge_safety(chk, pid, case, toks, im):
         chk.violation("the client run did not complete: " + short(im, 200), dict(case=case, impl=short(im)))
         return False, None
     outs, reader = p
-    reqs = [int(x.split()[1], 16) for x in toks if x.startswith("R ")]
-    emitted = [int(x.split()[1], 16) for x in toks if x.startswith(("P ", "PS ", "PG "))]
+    # which connection each request was sent on and each answer was emitted on (events CA / SEL; one connection otherwise)
+    reqs, emitted = [], {0: []}
+    cur = sel = 0
+    for x in toks:
+        if x == "CA":
+            cur += 1
+            sel = cur
+            emitted[cur] = []
+        elif x.startswith("SEL "):
+            c = int(x.split()[1])
+            if c <= cur:
+                sel = c
+        elif x.startswith("R "):
+            reqs.append((int(x.split()[1], 16), cur))
+        elif x.startswith(("P ", "PS ", "PG ")):
+            emitted[sel].append(int(x.split()[1], 16))
     if len(outs) != len(reqs):
         chk.violation("number of futures differs from the number of sends", dict(case=case, impl=short(im)))
         return False, None
@@ -94,14 +202,17 @@ def judge_safety(chk, pid, case, toks, im):
         if o.startswith("GOT:"):
             _, h, e = o.split(":")
             h, e = int(h, 16), int(e, 16)
+            want_h, c = reqs[i]
             why = None
-            if h != reqs[i]:
-                why = f"future {i} (request hop-by-hop id {reqs[i]:x}) completed with an answer carrying id {h:x}"
-            elif e >= len(emitted) or emitted[e] != h:
+            if h != want_h:
+                why = f"future {i} (request hop-by-hop id {want_h:x}) completed with an answer carrying id {h:x}"
+            elif not any(e < len(em) and em[e] == h for em in emitted.values()):
                 why = f"future {i} received a message the peer did not send (end-to-end id {e:x})"
-            elif e in seen:
-                why = f"answer frame {e:x} was delivered to more than one future"
-            seen.add(e)
+            else:
+                cc = c if e < len(emitted[c]) and emitted[c][e] == h else next(k for k, em in emitted.items() if e < len(em) and em[e] == h)
+                if (cc, e) in seen:
+                    why = f"answer frame {e:x} of connection {cc} was delivered to more than one future"
+                seen.add((cc, e))
             if why:
                 chk.violation(why, dict(case=case, impl=short(im)))
                 return False, p
@@ -126,10 +237,32 @@ def completion_late(im, mo):
     return None
 
 
+def reconn_cases(chk, eng, pid, variants, reps):
+    """connect() called twice on one client object over real loopback TCP (the in-memory engine reaches the second connection
+    through the hook; this reaches it through connect() itself)"""
+    cases = [f"RECONN {v}" for v in variants for _ in range(reps)]
+    impl = core.run_sharded([eng.harness, "codec"], eng.prelude, cases, shards=min(8, len(cases)), timeout=300)
+    for c, im in zip(cases, impl):
+        chk.case(c + im, True)
+        chk.validated += 1
+        chk.count("reconnect:" + c.split()[1])
+        f = dict(x.split("=", 1) for x in im.split()[1:] if "=" in x) if im.startswith("RECONN") else {}
+        if c.endswith("overlap"):
+            ok = f.get("reconnect") == "ok" and f.get("f2") == "got" and f.get("f1") in ("err", "got")
+            what = ("a request in flight on the current connection did not get the answer its peer sent after the peer of an EARLIER connection of the same "
+                    "client object had closed (or the request on the closed connection was left pending)")
+        else:
+            ok = f.get("reconnect") == "failed" and f.get("f1") == "got" and f.get("f2") in ("senderr", "futerr")
+            what = ("after a connect() that failed and the loss of the live connection, a further send neither failed nor yielded a future that fails "
+                    "(or the earlier exchange did not complete)")
+        if not ok:
+            chk.violation(what + ": " + short(im, 200), dict(case=c, impl=short(im)))
+
+
 def check_C11(chk, tier, seed):
     rng = Rng(seed).fork("C11")
     eng = engine_codec.setup(chk, rng, need_limit=False)
-    cases = []      # (line, toks, good)
+    cases = regress_schedules("C11")      # (line, toks, good)
     # exhaustive interleavings for 1..3 outstanding requests, every answer order is among them
     for n in (1, 2, 3):
         for seq in linear_extensions(n):
@@ -179,6 +312,11 @@ def check_C11(chk, tier, seed):
             if r.chance(1, 8):
                 toks.append(f"T {hx(r.choice([1000, 60000]))}")
         cases.append((line(toks), toks, False))
+    # one client object, several connections over its life (connect() called again, also unsuccessfully)
+    for k in range(400 if tier == "quick" else 30000):
+        r = rng.fork(f"m{k}")
+        toks = multi_schedule(r)
+        cases.append((line(toks), toks, "multi"))
     lines = [c[0] for c in cases]
     impl, model = eng.run(lines)
     for i, ((c, toks, good), im, mo) in enumerate(zip(cases, impl, model)):
@@ -186,7 +324,28 @@ def check_C11(chk, tier, seed):
         chk.case(c, nreq >= 2)
         chk.validated += 1
         chk.count(f"requests:{nreq}")
-        chk.count("causal-distinct" if good else "adversarial-peer")
+        chk.count("several-connections" if good == "multi" else "causal-distinct" if good else "adversarial-peer")
+        if good == "multi":
+            ok, p = judge_safety(chk, "C11", c, toks, im)
+            if ok:
+                outs, _ = p
+                reqs, emitted, cut = conn_view(toks)
+                for k2, ((h, cn), o) in enumerate(zip(reqs, outs)):
+                    if not cut[cn] and h in emitted[cn] and not o.startswith("GOT:"):
+                        ok = False
+                        chk.violation(f"request {k2} (hop-by-hop id {h:x}) was sent on connection {cn}, which was never cut and whose peer answered it, but its future "
+                                      f"completed with {o.split('@')[0]} (another connection of the same client object was cut or re-established meanwhile)",
+                                      dict(case=c, impl=short(im), model=short(mo)))
+                        break
+                late = completion_late(im, mo) if ok else None
+                if late:
+                    ok = False
+                    chk.violation("a response future completed later than its answer was available to the client: " + late, dict(case=c, impl=short(im), model=short(mo)))
+            if ok and im != mo:
+                chk.corr_break("client observation differs from the model", dict(case=c, impl=short(im), model=short(mo)))
+            if i % max(1, len(cases) // 6) == 0:
+                chk.sample(dict(case=c, impl=short(im, 200), P=ok))
+            continue
         ok, p = judge_safety(chk, "C11", c, toks, im)
         if ok and good:
             outs, reader = p
@@ -202,19 +361,21 @@ def check_C11(chk, tier, seed):
             chk.corr_break("client observation differs from the model", dict(case=c, impl=short(im), model=short(mo)))
         if i % max(1, len(cases) // 6) == 0:
             chk.sample(dict(case=c, impl=short(im, 200), P=ok))
+    reconn_cases(chk, eng, "C11", ["overlap"], 2 if tier == "quick" else 10)
     chk.rule = ("EVERY interleaving of {send starts and registers, first request octet written, send returns, peer answers} for 1, 2 and 3 outstanding requests "
                 "(answers may overtake each other, arrive before the send call has returned or before the request is fully written), the reader running to "
                 f"quiescence after every event; {nrand} sampled interleavings for 4-5 requests with split answers, varying write-gate sizes and extreme ids; "
                 "adversarial peers (unsolicited / duplicated / foreign ids), futures dropped by the caller while pending or after completion, sends whose write fails "
                 "after the waiter was registered - for the safety half; answers delivered in two pieces separated by 1 ms .. 61 s of virtual time and idle periods up "
-                "to 10 min (anything timer-driven inside the client gets its chance to fire); single-threaded runtime, paused time; non-trivial = >= 2 requests")
+                "to 10 min (anything timer-driven inside the client gets its chance to fire); one client object with 2-3 connections over its life (connect() again, "
+                "also failing for real against a closed port), requests outstanding on each, older connections cut while newer ones are busy; single-threaded runtime, paused time; non-trivial = >= 2 requests")
     chk.assumptions = ["partial: atomicity at await points; tokio Mutex/oneshot by contract; sends are sequential because send_message takes &mut self"]
 
 
 def check_C12(chk, tier, seed):
     rng = Rng(seed).fork("C12")
     eng = engine_codec.setup(chk, rng, need_limit=False)
-    cases = []
+    cases = regress_schedules("C12")
     kinds = ["eof", "reset", "garbage", "unknownavp"]
     # 1..4 outstanding x which answers were already delivered x how the stream ends (incl. every cut offset of a partial answer)
     for n in (1, 2, 3, 4):
@@ -277,6 +438,10 @@ def check_C12(chk, tier, seed):
         if r.chance(1, 3):
             toks += [f"R {hx(r.choice([1, 2, 9]))}", "W"]             # a send attempted after the reader has stopped
         cases.append((line(toks), toks, "random"))
+    for k in range(400 if tier == "quick" else 30000):
+        r = rng.fork(f"m{k}")
+        toks = multi_schedule(r, adversarial=True)
+        cases.append((line(toks), toks, "multi"))
     lines = [c[0] for c in cases]
     impl, model = eng.run(lines)
     from checks_client import judge_safety as js
@@ -292,7 +457,21 @@ def check_C12(chk, tier, seed):
             has_bad = any(x.startswith("B ") for x in toks)
             late = completion_late(im, mo)
             outs = [o.split("@")[0] for o in outs]
-            if reader == "stopped" and "PENDING" in outs:
+            reqs_c, _, cut_c = conn_view(toks)
+            rds = readers_of(im)
+            hung = [k2 for k2, ((h, cn), o) in enumerate(zip(reqs_c, outs)) if o == "PENDING" and cn < len(rds) and rds[cn] == "stopped"]
+            if kind == "multi":
+                has_bad = False
+                if hung:
+                    ok = False
+                    chk.violation(f"response future {hung[0]} is still pending although the reader of the connection it was sent on has stopped (it can never complete)",
+                                  dict(case=c, impl=short(im)))
+                elif any(cut_c[cn] and cn < len(rds) and rds[cn] != "stopped" for cn in cut_c):
+                    ok = False
+                    chk.violation("a reader did not stop after its peer closed / reset / sent an undecodable message", dict(case=c, impl=short(im)))
+            if not ok:
+                pass
+            elif reader == "stopped" and "PENDING" in outs and kind != "multi":
                 ok = False
                 chk.violation("a response future is still pending although the connection's reader has stopped (it can never complete)",
                               dict(case=c, impl=short(im)))
@@ -320,8 +499,9 @@ def check_C12(chk, tier, seed):
             chk.corr_break("client observation differs from the model", dict(case=c, impl=short(im), model=short(mo)))
         if i % max(1, len(cases) // 6) == 0:
             chk.sample(dict(case=c, impl=short(im, 200), P=ok))
+    reconn_cases(chk, eng, "C12", ["overlap", "failed"], 2 if tier == "quick" else 10)
     chk.rule = ("1..4 outstanding requests x every subset of answers already delivered x {EOF, reset, undecodable octets, unknown AVP}; the answer stream cut at "
                 f"EVERY octet offset inside a pending answer; {nrand} random histories with repeated ids (superseded waiters), unmatched answers, answers racing the "
-                "write, sends attempted after the reader stopped, sends whose write fails, futures dropped by the caller, idle periods and split answers with gaps in "
+                "write, sends attempted after the reader stopped, several connections of one client object (connect() again, also failing), sends whose write fails, futures dropped by the caller, idle periods and split answers with gaps in "
                 "virtual time; hangs = futures still pending once the paused runtime is idle; reader running to quiescence after every event")
     chk.assumptions = ["partial as C11; 'eventually' = by the time the finite peer script has been played and the runtime is idle"]
